@@ -7,7 +7,7 @@ d = os.path.join(os.path.dirname(os.path.dirname(os.path.abspath(__file__))), "s
 a = json.load(open(os.path.join(d, "meta.agent.json")))
 checks = sorted(os.path.basename(p)[6:-4] for p in glob.glob(os.path.join(d, "check-*.log")))
 checks.sort(key=lambda c: c != prop)
-m = {"id": sid, "breaks_property": prop, "round": 2, "summary": a.get("summary", ""), "needs_to_manifest": a.get("needs_to_manifest", ""),
+m = {"id": sid, "breaks_property": prop, "round": int(os.environ.get("ROUND", "3")), "summary": a.get("summary", ""), "needs_to_manifest": a.get("needs_to_manifest", ""),
      "files_changed": a.get("files_changed", []),
      "confirmed_by_me": "tools/seed_test.sh: in the scratch worktree the unedited suite passes with the change (82+82), the demonstration fails with it and passes "
                         "without it; then the patch was applied to /repo, the listed checks were run at the quick tier, and /repo was restored with git checkout",
